@@ -20,6 +20,7 @@ fn family(name: &str) -> Option<fn(&str) -> String> {
         "lichess" => fam_lichess::run,
         "uciparse" => fam_uci::uciparse,
         "ucimove" => fam_uci::ucimove,
+        "consoletx" => fam_consoletx::run,
         _ => return None,
     })
 }
